@@ -176,8 +176,9 @@ Global Arguments timeit_enter : simpl never.
 Global Arguments timeit_exit : simpl never.
 Global Arguments contextual_scope_enter : simpl never.
 Global Arguments contextual_scope_exit : simpl never.
-Global Arguments detour_enter : simpl never.
-Global Arguments detour_exit : simpl never.
+Global Arguments detour_scope_enter : simpl never.
+Global Arguments detour_scope_exit : simpl never.
+Global Arguments current_mappings : simpl never.
 Global Arguments dyn_enter : simpl never.
 Global Arguments dyn_exit : simpl never.
 Global Arguments loadtypes_enter : simpl never.
